@@ -182,6 +182,7 @@ type Universe struct {
 	typeIDList []types.Type
 	strLits    map[string]string // literal value -> const name
 	strLitList []string
+	concatPfx  map[string]bool   // literal strings used as the left operand of a concatenation
 	ufuncs     map[string]string // name -> full declaration line
 	ufuncOrder []string
 	axioms     []string // global axioms (asserted in every VC that uses them; kept simple: always)
@@ -453,7 +454,42 @@ func (u *Universe) preamble() string {
 	for _, a := range u.axioms {
 		fmt.Fprintf(&b, "(assert %s)\n", a)
 	}
+	// a literal prefix P followed by anything differs from every literal that does not start with P
+	var pfx []string
+	for p := range u.concatPfx {
+		pfx = append(pfx, p)
+	}
+	sort.Strings(pfx)
+	for _, p := range pfx {
+		var ne []string
+		for _, l := range append([]string{""}, u.strLitList...) {
+			if !strings.HasPrefix(l, p) {
+				ne = append(ne, fmt.Sprintf("(not (= (str_concat %s s_) %s))", u.strLit(p).S, u.strLit(l).S))
+			}
+		}
+		if len(ne) > 0 {
+			fmt.Fprintf(&b, "(assert (forall ((s_ Str)) (! (and %s true) :pattern ((str_concat %s s_)))))\n", strings.Join(ne, " "), u.strLit(p).S)
+		}
+	}
 	return b.String()
+}
+
+// strConcat: string concatenation as an uninterpreted function with its length, left cancellation, and (for a literal
+// left operand) distinctness from literals with another prefix.
+func (u *Universe) strConcat(a, b Term) Term {
+	u.ufunc("str_concat", []string{"Str", "Str"}, "Str")
+	u.ufunc("str_unprefix", []string{"Str", "Str"}, "Str")
+	u.axiom("(forall ((a Str) (b Str)) (! (= (str_len (str_concat a b)) (+ (str_len a) (str_len b))) :pattern ((str_concat a b))))")
+	u.axiom("(forall ((a Str) (b Str)) (! (= (str_unprefix a (str_concat a b)) b) :pattern ((str_concat a b))))")
+	for l, n := range u.strLits {
+		if n == a.S {
+			if u.concatPfx == nil {
+				u.concatPfx = map[string]bool{}
+			}
+			u.concatPfx[l] = true
+		}
+	}
+	return app("Str", "str_concat", a, b)
 }
 
 func truncate(s string, n int) string {
